@@ -245,6 +245,16 @@ def run(r: Run):
                 corr_ok = False
                 r.violation("npeaks-minimal", {"kind": "impl-entry"}, f"poisson_approximate_n_peaks_of_impl({float(m)}, {float(lf)}, {float(t)}, {mi}) = {x}, "
                             f"the smallest qualifying count under that cap is {mn}", expected=mn, observed={"line": one})
+    # mass = -0.0 (what `0.0 * -2.0` or `-(a - a)` leaves): it satisfies `mass >= 0`, and every result must be the one for +0.0
+    zlines = [f"poisson\t{m0}\t{n}\t{z}" for n in (1, 3, 8) for z in (1, -2, 8) for m0 in ("0/1", "-0/1")]
+    zlines += [f"poissonn\t{m0}\t0/1,1/2,19/20,1/1" for m0 in ("0/1", "-0/1")]
+    zout = r.impl("poisson", zlines)
+    for k in range(0, len(zlines), 2):
+        r.case(("negative-zero", zout[k + 1].split(" ")[0]), {"line": zlines[k + 1], "impl": zout[k + 1][:120]})
+        if zout[k] != zout[k + 1] or zout[k].startswith(("panic", "nonfinite", "bad")):
+            corr_ok = False
+            r.violation("negative-zero", {"mass": "-0.0"}, f"{zlines[k + 1].replace(chr(9), ' ')} gives {zout[k + 1][:80]}, the same call with +0.0 gives {zout[k][:80]}",
+                        expected=zout[k][:300], observed={"line": zlines[k + 1], "impl": zout[k + 1][:300]})
     r.coverage["impl_entry_points"] = dict(profiles=len(ilines), counts=len(nlines) * len(tgrid))
     r.coverage["boundary_skipped"] = skipped
     r.oblige("correspondence: poisson_approximation / poisson_approximate_n_peaks_of agree with the exact model", "corr", corr_ok)
